@@ -336,6 +336,9 @@ func (c *Ctx) lengthAtLeast(base ssa.Value, need int64, at *ssa.BasicBlock, dept
 			}
 		}
 	}
+	if why, ok := c.tableLenGuard(base, need, at); ok {
+		return why, true
+	}
 	return "no dominating len test and no length-bearing origin", false
 }
 
@@ -384,4 +387,239 @@ func regexpGroups(v ssa.Value) (int, bool) {
 // implies non-nil.
 func nilExcluded(call *ssa.Call, at *ssa.BasicBlock) bool {
 	return eng.KnownNonNil(call, at)
+}
+
+// tableLenGuard: the number of elements is checked against a table of rules before the code
+// branches on the command word —
+//
+//	if rule, ok := rules[cmd]; ok && !rule.accepts(len(args)) { …; return }
+//	switch cmd { case "DELE": … args[0] … }
+//
+// At a site dominated by cmd == K, with K a key of the (initialiser-only) table, the check ran
+// and passed, so len(args) is at least the lower bound the table gives for K. The lower bound is
+// read from the helper's comparison `r.<field> <= n` and the table entry's constant for that field.
+func (c *Ctx) tableLenGuard(base ssa.Value, need int64, at *ssa.BasicBlock) (string, bool) {
+	fn := at.Parent()
+	// the command constants under which `at` runs
+	type keyed struct {
+		v ssa.Value
+		k string
+	}
+	var keys []keyed
+	for _, b := range fn.Blocks {
+		for e := 0; e < len(b.Succs) && len(b.Succs) == 2; e++ {
+			rel, ok := eng.EdgeRel(b, e)
+			if !ok || rel.Op != token.EQL || !eng.EdgeDominates(b, e, at) {
+				continue
+			}
+			if ks, isK := eng.ConstString(rel.Y); isK {
+				keys = append(keys, keyed{rel.X, ks})
+			} else if ks, isK := eng.ConstString(rel.X); isK {
+				keys = append(keys, keyed{rel.Y, ks})
+			}
+		}
+	}
+	if len(keys) == 0 {
+		return "", false
+	}
+	for _, b := range fn.Blocks {
+		for _, in := range b.Instrs {
+			call, ok := in.(*ssa.Call)
+			if !ok {
+				continue
+			}
+			g := eng.StaticCallee(call.Common())
+			if g == nil || !eng.InModule(g) || len(g.Blocks) == 0 || len(call.Call.Args) != len(g.Params) {
+				continue
+			}
+			// accepts(rule, len(base)): one argument is len(base), another a table entry
+			lenIdx, ruleIdx := -1, -1
+			var lk *ssa.Lookup
+			for i, a := range call.Call.Args {
+				if lx := eng.LenOf(eng.StripConv(a)); lx != nil && (lx == base || eng.SameLoadNoDom(lx, base)) {
+					lenIdx = i
+				}
+				ra := eng.ResolveLocalLoad(a)
+				if ld, isLd := ra.(*ssa.UnOp); isLd && ld.Op == token.MUL {
+					// the entry kept in a local whose fields are read later on
+					if al, isAl := ld.X.(*ssa.Alloc); isAl && al.Referrers() != nil {
+						var only ssa.Value
+						cnt := 0
+						for _, ar := range *al.Referrers() {
+							if st, isSt := ar.(*ssa.Store); isSt && st.Addr == ssa.Value(al) {
+								only = st.Val
+								cnt++
+							}
+						}
+						if cnt == 1 {
+							ra = only
+						}
+					}
+				}
+				if ex, isEx := ra.(*ssa.Extract); isEx && ex.Index == 0 {
+					if l2, isLk := ex.Tuple.(*ssa.Lookup); isLk && l2.CommaOk {
+						ruleIdx, lk = i, l2
+					}
+				}
+			}
+			if lenIdx < 0 || ruleIdx < 0 {
+				continue
+			}
+			// the refusing edge of the check does not lead to the site
+			refuses := false
+			for _, cb := range fn.Blocks {
+				for e := 0; e < len(cb.Succs) && len(cb.Succs) == 2; e++ {
+					v, pol, okT := eng.CondTruth(cb, e)
+					if !okT || v != ssa.Value(call) || pol {
+						continue
+					}
+					seen := map[*ssa.BasicBlock]bool{}
+					var reach func(x *ssa.BasicBlock) bool
+					reach = func(x *ssa.BasicBlock) bool {
+						if x == at {
+							return true
+						}
+						if seen[x] {
+							return false
+						}
+						seen[x] = true
+						for _, s2 := range x.Succs {
+							if reach(s2) {
+								return true
+							}
+						}
+						return false
+					}
+					if !reach(cb.Succs[e]) {
+						refuses = true
+					}
+				}
+			}
+			if !refuses || !call.Block().Dominates(at) && !lk.Block().Dominates(at) {
+				continue
+			}
+			// the table: a package-level map written only by its initialiser
+			u, isU := lk.X.(*ssa.UnOp)
+			if !isU {
+				continue
+			}
+			gl, isG := u.X.(*ssa.Global)
+			if !isG || gl.Pkg == nil {
+				continue
+			}
+			// which field of the rule bounds n from below
+			lowField := -1
+			eng.EachInstr(g, func(gi ssa.Instruction) {
+				bo, isB := gi.(*ssa.BinOp)
+				if !isB {
+					return
+				}
+				x, y, op := bo.X, bo.Y, bo.Op
+				if op == token.GEQ {
+					x, y, op = y, x, token.LEQ
+				}
+				if op != token.LEQ || eng.StripConv(y) != ssa.Value(g.Params[lenIdx]) {
+					return
+				}
+				switch f := eng.StripConv(x).(type) {
+				case *ssa.Field:
+					if f.X == ssa.Value(g.Params[ruleIdx]) {
+						lowField = f.Field
+					}
+				case *ssa.UnOp:
+					if fa, isFA := f.X.(*ssa.FieldAddr); isFA {
+						if al, isAl := fa.X.(*ssa.Alloc); isAl {
+							for _, st := range eng.CellStores(al) {
+								if st.Val == ssa.Value(g.Params[ruleIdx]) {
+									lowField = fa.Field
+								}
+							}
+						}
+					}
+				}
+			})
+			if lowField < 0 {
+				continue
+			}
+			for _, kd := range keys {
+				if kd.v != lk.Index {
+					continue
+				}
+				if low, found := tableEntryInt(gl, kd.k, lowField); found && low >= need {
+					return fmt.Sprintf("the argument count was checked against the rule table entry %q (at least %d) before the command was dispatched", kd.k, low), true
+				}
+			}
+		}
+	}
+	return "", false
+}
+
+// tableEntryInt reads the integer constant in field `field` of the struct stored under the string
+// key in the package-level map g, which must be built by the package initialiser only.
+func tableEntryInt(g *ssa.Global, key string, field int) (int64, bool) {
+	var mm *ssa.MakeMap
+	clean := true
+	for _, m := range g.Pkg.Members {
+		f, isF := m.(*ssa.Function)
+		if !isF {
+			continue
+		}
+		for _, h := range eng.WithAnons(f) {
+			eng.EachInstr(h, func(in ssa.Instruction) {
+				switch x := in.(type) {
+				case *ssa.Store:
+					if x.Addr == ssa.Value(g) {
+						if mk, isMk := x.Val.(*ssa.MakeMap); isMk && h.Name() == "init" && mm == nil {
+							mm = mk
+						} else {
+							clean = false
+						}
+					}
+				case *ssa.MapUpdate:
+					if lu, ok := x.Map.(*ssa.UnOp); ok && lu.X == ssa.Value(g) {
+						clean = false
+					}
+				}
+			})
+		}
+	}
+	if mm == nil || !clean || mm.Referrers() == nil {
+		return 0, false
+	}
+	for _, ref := range *mm.Referrers() {
+		mu, ok := ref.(*ssa.MapUpdate)
+		if !ok {
+			continue
+		}
+		ks, isK := eng.ConstString(mu.Key)
+		if !isK || ks != key {
+			continue
+		}
+		ld, isLd := mu.Value.(*ssa.UnOp)
+		if !isLd {
+			return 0, false
+		}
+		al, isAl := ld.X.(*ssa.Alloc)
+		if !isAl || al.Referrers() == nil {
+			return 0, false
+		}
+		val, set := int64(0), false
+		for _, ar := range *al.Referrers() {
+			fa, isFA := ar.(*ssa.FieldAddr)
+			if !isFA || fa.Field != field || fa.Referrers() == nil {
+				continue
+			}
+			for _, fr := range *fa.Referrers() {
+				if st, isSt := fr.(*ssa.Store); isSt {
+					k, isC := eng.ConstInt(st.Val)
+					if !isC || set {
+						return 0, false
+					}
+					val, set = k, true
+				}
+			}
+		}
+		return val, true // an omitted field is zero
+	}
+	return 0, false
 }
